@@ -146,6 +146,16 @@ func (o *oenum) paths(f *ssa.Function, st0 map[ssa.Value]string, depth int) []op
 				if pi >= 0 {
 					st = copySt(st)
 					st[phi] = o.term(phi.Edges[pi], st)
+					// an error result assembled along the path (`var err error; switch { case …: err = … }; return err`)
+					if isErrType(phi.Type()) {
+						if _, known := st[phi.Edges[pi]]; !known {
+							if k, isK := phi.Edges[pi].(*ssa.Const); isK && k.IsNil() {
+								st[phi] = "nil"
+							} else if nonNilErr(phi.Edges[pi], pred.Instrs[len(pred.Instrs)-1]) {
+								st[phi] = "err"
+							}
+						}
+					}
 					if isBoolType(phi.Type()) {
 						// path-local: restored when the walk returns to the branching point
 						old, had := phiVal[phi]
